@@ -1,0 +1,113 @@
+//go:build verif
+
+package stick
+
+// Reachability probes for the assumed contracts of library functions (machine-checked by /verif/bin/stickvc).
+// Each probe returns true in a situation that really occurs; the verifier must find it SATISFIABLE under its
+// assumed contract of the library function (an inconsistent or over-strong contract would make the situation
+// impossible and proofs that rely on it vacuous). Never called; build tag verif only.
+
+import (
+	"bytes"
+	"errors"
+	"io"
+	"math"
+	"os"
+	"reflect"
+	"strconv"
+	"strings"
+	"unicode"
+)
+
+func verifProbeIndexMissEmpty(s string) bool { return len(s) == 0 && strings.Index(s, "ab") == -1 }
+func verifProbeIndexMissShort(s string) bool { return len(s) == 1 && strings.Index(s, "#{") == -1 }
+func verifProbeIndexHit(s string) bool       { return strings.Index(s, "ab") == 3 }
+func verifProbeIndexHitFirst(s string) bool  { return len(s) == 2 && strings.Index(s, "ab") == 0 }
+func verifProbeIndexVarSep(s, t string) bool {
+	return len(s) == 0 && len(t) == 1 && strings.Index(s, t) == -1
+}
+func verifProbeLastIndexMiss(s string) bool  { return len(s) == 0 && strings.LastIndex(s, ".") == -1 }
+func verifProbeLastIndexHit(s string) bool   { return len(s) == 5 && strings.LastIndex(s, ".") == 4 }
+func verifProbeLastIndexMiss3(s string) bool { return len(s) == 3 && strings.LastIndex(s, "\n") < 0 }
+func verifProbeCountZero(s string) bool      { return len(s) == 0 && strings.Count(s, "\n") == 0 }
+func verifProbeCountTwo(s string) bool       { return len(s) == 2 && strings.Count(s, "\n") == 2 }
+func verifProbeContainsNo(s string) bool     { return len(s) == 0 && !strings.Contains(s, "#{") }
+func verifProbeContainsYes(s string) bool    { return len(s) == 2 && strings.Contains(s, "#{") }
+func verifProbeContainsAnyNo(s string) bool  { return len(s) == 0 && !strings.ContainsAny(s, "<>") }
+func verifProbeHasPrefixYes(s string) bool   { return len(s) == 2 && strings.HasPrefix(s, "{{") }
+func verifProbeHasPrefixNo(s string) bool    { return len(s) == 0 && !strings.HasPrefix(s, "{{") }
+func verifProbeHasSuffixNo(s string) bool    { return len(s) == 1 && !strings.HasSuffix(s, ".twig") }
+func verifProbeTrimSuffixSame(s string) bool {
+	return len(s) == 3 && strings.TrimSuffix(s, ".twig") == s
+}
+func verifProbeTrimSuffixCut(s string) bool {
+	return len(s) == 6 && len(strings.TrimSuffix(s, ".twig")) == 1
+}
+func verifProbeIsDigit(r rune) bool         { return r == '7' && unicode.IsDigit(r) }
+func verifProbeIsLetterNo(r rune) bool      { return r == '7' && !unicode.IsLetter(r) }
+func verifProbeParseFloatErr(s string) bool { _, err := strconv.ParseFloat(s, 64); return err != nil }
+func verifProbeParseFloatOK(s string) bool {
+	v, err := strconv.ParseFloat(s, 64)
+	return err == nil && v == 2
+}
+func verifProbeFloorNeg(x float64) bool { return x == -0.5 && math.Floor(x) == -1 }
+func verifProbeAbs(x float64) bool      { return x == -2 && math.Abs(x) == 2 }
+func verifProbeErrorsNew() bool         { return errors.New("x") != nil }
+func verifProbeOpenFail(p string) bool  { f, err := os.Open(p); return err != nil && f == nil }
+func verifProbeOpenOK(p string) bool    { f, err := os.Open(p); return err == nil && f != nil }
+func verifProbeWriteFail(w io.Writer) bool {
+	_, err := io.WriteString(w, "x")
+	return w != nil && err != nil
+}
+func verifProbeWriteOK(w io.Writer) bool {
+	n, err := io.WriteString(w, "xy")
+	return w != nil && err == nil && n == 2
+}
+func verifProbeBufGrows(b *bytes.Buffer) bool { b.WriteString("ab"); return b.Len() >= 2 }
+func verifProbeBufString() bool               { b := &bytes.Buffer{}; b.WriteString("ab"); return b.String() == "ab" }
+func verifProbeReflectNil() bool              { return !reflect.ValueOf(nil).IsValid() }
+func verifProbeReflectSlice(v []int) bool     { return reflect.ValueOf(v).Kind() == reflect.Slice }
+func verifProbeReflectLen(v Value) bool {
+	r := reflect.ValueOf(v)
+	return r.IsValid() && r.Kind() == reflect.Slice && r.Len() == 3
+}
+func verifProbeMapRangeEmpty(m map[string]Value) bool {
+	n := 0
+	for range m {
+		n++
+	}
+	return len(m) == 0 && n == 0
+}
+func verifProbeMapRangeOne(m map[string]Value) bool {
+	n := 0
+	for range m {
+		n++
+	}
+	return n == 1
+}
+func verifProbeStringRange(s string) bool {
+	n := 0
+	for range s {
+		n++
+	}
+	return len(s) == 2 && n == 2
+}
+func verifProbeStringRangeMultibyte(s string) bool {
+	n := 0
+	for range s {
+		n++
+	}
+	return len(s) == 2 && n == 1
+}
+func verifProbeAppend(xs []Value) bool {
+	ys := append(xs, nil)
+	return len(ys) == len(xs)+1 && len(xs) == 2
+}
+func verifProbeNilMapRead(m map[string]Value) bool {
+	_, ok := m["k"]
+	return m == nil && !ok
+}
+func verifProbeTypedNil(v Value) bool {
+	p, ok := v.(*bytes.Buffer)
+	return ok && p == nil
+}
